@@ -20,10 +20,39 @@ var guardedPool = map[string]string{
 	"pool.connection.isArchive":  "pool.connection.mu",
 }
 
+// poolGuarded: the guarded-by table with the wait list and its id counter named by role (the
+// map-of-channels field of ConnPool; its only unsigned-integer field), so a rename keeps them covered.
+func (c *Ctx) poolGuarded() map[string]string {
+	out := map[string]string{}
+	for k, v := range guardedPool {
+		out[k] = v
+	}
+	if wl := c.fieldByType("liteapi/pool", "ConnPool", isMapOfChan); wl != "" && wl != "pool.ConnPool.waitList" {
+		delete(out, "pool.ConnPool.waitList")
+		out[wl] = "pool.ConnPool.mu"
+	}
+	isUint := func(t types.Type) bool {
+		b, ok := t.(*types.Basic) // a plain integer, not a named type (Strategy, time.Duration)
+		return ok && b.Info()&types.IsInteger != 0
+	}
+	if id := c.fieldByType("liteapi/pool", "ConnPool", isUint); id != "" && id != "pool.ConnPool.waitListID" {
+		delete(out, "pool.ConnPool.waitListID")
+		out[id] = "pool.ConnPool.mu"
+	}
+	return out
+}
+
+func (c *Ctx) poolWaitList() string {
+	if wl := c.fieldByType("liteapi/pool", "ConnPool", isMapOfChan); wl != "" {
+		return wl
+	}
+	return "pool.ConnPool.waitList"
+}
+
 func propC13(c *Ctx) propInfo {
 	c.errflow(excC13E2, "liteapi/pool")
 	la := c.newLockAnalysis("liteapi/pool")
-	la.guardedBy("E9.K1-guarded-by", guardedPool, map[string]string{})
+	la.guardedBy("E9.K1-guarded-by", c.poolGuarded(), map[string]string{})
 	la.pairing("E9.K2-pairing")
 	la.noBlockingUnderLock("E9.K3-no-blocking-under-lock", map[string]string{})
 	la.lockOrder("E9.K4-lock-order")
@@ -176,9 +205,11 @@ func (c *Ctx) selectionRules() {
 			}
 		}
 	}
-	// updateBest: each store to ConnPool.bestConn is dominated by "candidate != nil"
+	// updateBest: each store to ConnPool.bestConn is dominated by "candidate != nil", and between them the stores
+	// take the result of both selection functions (one store per strategy, or one store of a candidate variable)
 	nSt := 0
 	okSt := true
+	fromBest, fromFirst := false, false
 	allInstrs(ub, func(b *ssa.BasicBlock, i ssa.Instruction) {
 		st, ok := i.(*ssa.Store)
 		if !ok {
@@ -197,20 +228,33 @@ func (c *Ctx) selectionRules() {
 		if !guarded {
 			okSt = false
 		}
-	})
-	c.check(okSt && nSt >= 2, R, "bestConn replaced only by a non-nil candidate", ub.Pos(), fmt.Sprintf("%d store(s) to bestConn, each dominated by candidate != nil: otherwise the previous choice is kept", nSt), "updateBest can overwrite bestConn with nil (or no longer stores the candidate): the previous choice is not kept when no connection qualifies")
-	// maximum over all connections: maxSeqno is a loop-carried max over c.MasterHead().Seqno of the range over p.conns
-	okMax := false
-	allInstrs(ub, func(_ *ssa.BasicBlock, i ssa.Instruction) {
-		// a loop-carried value one of whose updates is a connection's MasterHead().Seqno
-		if phi, ok := i.(*ssa.Phi); ok && inLoop(phi.Block()) && derivesFrom(phi, func(v ssa.Value) bool {
-			cl := callOf(v)
-			return cl != nil && cl.Call.IsInvoke() && cl.Call.Method.Name() == "MasterHead"
-		}, false) {
-			okMax = true
+		if derivesFrom(st.Val, callResult(c.qn("liteapi/pool", "ConnPool.findBestPingConnection")), false) {
+			fromBest = true
+		}
+		if derivesFrom(st.Val, callResult(c.qn("liteapi/pool", "ConnPool.findFirstWorkingConnection")), false) {
+			fromFirst = true
 		}
 	})
-	c.check(okMax, R, "newest head is the maximum over all connections", ub.Pos(), "maxSeqno is accumulated in the loop over p.conns", "updateBest no longer accumulates the newest head seqno over all connections")
+	c.check(okSt && nSt >= 1 && fromBest && fromFirst, R, "bestConn replaced only by a non-nil candidate", ub.Pos(), fmt.Sprintf("%d store(s) to bestConn, each dominated by candidate != nil, carrying the result of either selection function: otherwise the previous choice is kept", nSt), "updateBest can overwrite bestConn with nil (or no longer stores the candidate of one of the strategies): the previous choice is not kept when no connection qualifies")
+	// maximum over all connections: the threshold handed to the selection functions is a loop-carried max over
+	// c.MasterHead().Seqno of the range over p.conns (accumulated in updateBest or in a helper it calls)
+	isLoopMax := func(v ssa.Value) bool {
+		phi, ok := v.(*ssa.Phi)
+		return ok && inLoop(phi.Block()) && derivesFrom(phi, func(x ssa.Value) bool {
+			cl := callOf(x)
+			return cl != nil && cl.Call.IsInvoke() && cl.Call.Method.Name() == "MasterHead"
+		}, false)
+	}
+	okMax, nSel := true, 0
+	for _, q := range []string{"ConnPool.findBestPingConnection", "ConnPool.findFirstWorkingConnection"} {
+		for _, cl := range callsTo(ub, c.qn("liteapi/pool", q)) {
+			nSel++
+			if len(cl.Call.Args) < 2 || !derivesFrom(cl.Call.Args[1], isLoopMax, false) {
+				okMax = false
+			}
+		}
+	}
+	c.check(okMax && nSel >= 2, R, "newest head is the maximum over all connections", ub.Pos(), "the seqno given to both selection functions is accumulated in a loop over p.conns", "updateBest no longer accumulates the newest head seqno over all connections (or no longer hands it to the selection functions)")
 }
 
 func equalStrings(a, b []string) bool {
@@ -361,7 +405,7 @@ func (c *Ctx) waitListIDs() {
 		if !ok {
 			return
 		}
-		if of, ok := ownerField(ld.X); !ok || of != "pool.ConnPool.waitList" {
+		if of, ok := ownerField(ld.X); !ok || of != c.poolWaitList() {
 			return
 		}
 		n++
@@ -390,7 +434,7 @@ func (c *Ctx) waitListIDs() {
 		if !ok {
 			return
 		}
-		if of, ok := ownerField(ld.X); !ok || of != "pool.ConnPool.waitList" {
+		if of, ok := ownerField(ld.X); !ok || of != c.poolWaitList() {
 			return
 		}
 		fromLen := derivesFrom(mu.Key, func(v ssa.Value) bool {
